@@ -266,11 +266,24 @@ def m_chain(eng, st, args, kwargs, node):
         return heap[r.addr].len
     lens = named_array(eng, z3.Lambda([k], rowlen(k)), "CHL", extra_triggers=False)
     sum_axioms(eng, lens, n, SUMI)
-    own = z3.Function(fresh_name("chain.owner"), z3.IntSort(), z3.IntSort())
+    # the owner of a position is determined by the lengths alone: chains over lists with the same length function share it (aligned parallel lists)
+    ckey = ("chain-owner", lens.get_id(), z3.simplify(n).get_id())
+    if not hasattr(eng, "_chain_owner"):
+        eng._chain_owner = {}
+    own = eng._chain_owner.get(ckey)
     total = SUMI(lens, n)
-    p = z3.Int("p!ch")
-    eng.axioms.append(z3.ForAll([p], z3.Implies(z3.And(0 <= p, p < total),
-                                                z3.And(0 <= own(p), own(p) < n, SUMI(lens, own(p)) <= p, p < SUMI(lens, own(p) + 1))), patterns=[own(p)]))
+    if own is None:
+        own = z3.Function(fresh_name("chain.owner"), z3.IntSort(), z3.IntSort())
+        eng._chain_owner[ckey] = own
+        p = z3.Int("p!ch")
+        eng.axioms.append(z3.ForAll([p], z3.Implies(z3.And(0 <= p, p < total),
+                                                    z3.And(0 <= own(p), own(p) < n, SUMI(lens, own(p)) <= p, p < SUMI(lens, own(p) + 1),
+                                                           sum_unfold(lens, own(p), SUMI))), patterns=[own(p)]))       # (last conjunct: the definition of the prefix sum, at the owner)
+        # prefix sums of non-negative lengths are monotone (lemma library, assumed): makes the owner of a position unique
+        q1, q2, kk = z3.Ints("q1!ch q2!ch k!chm")
+        eng.axioms.append(z3.Implies(z3.ForAll([kk], z3.Implies(z3.And(0 <= kk, kk < n), z3.Select(lens, kk) >= 0)),
+                                     z3.ForAll([q1, q2], z3.Implies(z3.And(0 <= q1, q1 <= q2, q2 <= n), SUMI(lens, q1) <= SUMI(lens, q2)),
+                                               patterns=[z3.MultiPattern(SUMI(lens, q1), SUMI(lens, q2))])))
 
     def get(pp):
         q = own(pp)
